@@ -102,5 +102,7 @@ ProbeCorrect ==
     LET x == probe[i] IN
     /\ ReadOK(x.rows, x.s, x.lim, x.ao)
     /\ x.same \/ (AscOf(x.logs) /\ OnePerDocOf(x.logs) /\ CompleteOf([logs |-> x.logs, vf |-> x.vf, docs |-> LSet(x.docs)]))
+(* PurgedNotServed on the probes: no read of the current real state returns a row of a purged document *)
+ProbePurgedNotServed == \A i \in 1..Len(probe) : ServedOK(probe[i].rows)
 ProbeDocsIndex == \A i \in 1..Len(probe) : probe[i].same \/ LSet(probe[i].docs) = DocsOf(probe[i].logs)
 =============================================================================
